@@ -827,3 +827,26 @@ Proof.
       replace ((len msg + 256 - 0 mod 256) mod 256) with (len msg) by lia.
       rewrite take_app. reflexivity.
 Qed.
+
+(* ------------------------------------------------------------ where the UDH indicator applies: pinned by the specification *)
+(* The flags l_has_esm / l_replace of the regenerated table are OBSERVED from the running code (what ShortMessage.Prepare does for
+   each type).  The specification says what they must be: for every registered type that carries a short message, Prepare follows
+   an esm_class exactly when the operation has both esm_class and short_message, and drops data_coding exactly for the operation
+   that has short_message without data_coding. *)
+Definition is_short (k : fkind) : bool := match k with FShortMsg => true | _ => false end.
+Definition udhi_flags_ok (l : layout) : bool :=
+  Bool.eqb (existsb is_short (l_fields l) && l_has_esm l) (spec_has_udhi (l_id l)) &&
+  Bool.eqb (l_replace l) (spec_is_replace (l_id l)) &&
+  Bool.eqb (existsb is_short (l_fields l)) (match find_op0 smpp5_ops (l_id l) with Some o => op_has_short o | None => false end).
+Lemma udhi_applies l : In l layouts ->
+  (existsb is_short (l_fields l) && l_has_esm l) = spec_has_udhi (l_id l) /\
+  l_replace l = spec_is_replace (l_id l) /\
+  existsb is_short (l_fields l) = (match find_op0 smpp5_ops (l_id l) with Some o => op_has_short o | None => false end).
+Proof.
+  intros Hin. assert (H : forallb udhi_flags_ok layouts = true) by (vm_compute; reflexivity).
+  rewrite forallb_forall in H. specialize (H l Hin). unfold udhi_flags_ok in H.
+  apply andb_true_iff in H. destruct H as [H H3]. apply andb_true_iff in H. destruct H as [H1 H2].
+  apply Bool.eqb_prop in H1. apply Bool.eqb_prop in H2. apply Bool.eqb_prop in H3. auto.
+Qed.
+Lemma spec_udhi_ops : filter spec_has_udhi spec_command_ids = [4; 5; 33] /\ filter spec_is_replace spec_command_ids = [7].
+Proof. split; vm_compute; reflexivity. Qed.
